@@ -193,4 +193,7 @@ def load_program(verbose=False):
         prog.add_unit(e["facts"])
     prog.manifest = man
     prog.failed_units = man["failed"]
+    if not os.environ.get("NITRO_VERIF_NO_INLINE"):
+        from . import inline
+        inline.normalise(prog)
     return prog
